@@ -28,3 +28,46 @@ package expr
 //@ func sortedKeys
 //@   trusted
 //@   modifies nothing
+
+// ---- copies (C13) ---------------------------------------------------------------------
+// "Changing the copy never changes the original": the nodes a copy is made of are freshly allocated,
+// and copying writes nothing that existed before (frame), except the dupper's own memo tables.
+
+//@ func (*ValidationExpr).Dup
+//@   property C13
+//@   requires v != nil
+//@   ensures* fresh: result != nil && fresh(result) && (len(v.Required) > 0 ==> fresh(result.Required) && len(result.Required) == len(v.Required))
+//@   ensures* same: result.Format == v.Format && result.Pattern == v.Pattern && result.Minimum == v.Minimum && result.Maximum == v.Maximum && result.MinLength == v.MinLength && result.MaxLength == v.MaxLength && result.ExclusiveMinimum == v.ExclusiveMinimum && result.ExclusiveMaximum == v.ExclusiveMaximum
+//@   ensures* required.copied: forall i int :: 0 <= i && i < len(v.Required) ==> result.Required[i] == v.Required[i]
+//@   modifies* nothing
+//@   frameprop C13
+
+//@ func MetaExpr.Dup
+//@   property C13
+//@   ensures* fresh: result != nil && fresh(result)
+//@   loop 1 invariant made: d != nil && fresh(d)
+//@   modifies* nothing
+//@   frameprop C13
+
+// DupType is mutually recursive with DupAttribute and dispatches on every kind of type (user types through
+// interface methods). Its frame is ASSUMED here: it writes the dupper's memo tables, the list of generated
+// result types and objects it allocates, nothing that existed before.
+//@ func (*dupper).DupType
+//@   trusted
+//@   requires d != nil && d.uts != nil && d.ats != nil
+//@   ensures memo: d.uts == old(d.uts) && d.ats == old(d.ats)
+//@   modifies* mapOf(d.uts), mapOf(d.ats), cell(GeneratedResultTypes), whole(elems(load(GeneratedResultTypes)))
+//@   frameprop C13
+
+//@ func (*dupper).DupAttribute
+//@   property C13
+//@   requires d != nil && d.uts != nil && d.ats != nil && att != nil
+//@   let isNew = !old(inMap(d.ats, att))
+//@   ensures* memoised: !isNew ==> result == att
+//@   ensures* fresh.node: isNew ==> result != nil && fresh(result) && result != att
+//@   ensures* fresh.validation: isNew && old(att.Validation) != nil ==> result.Validation != nil && fresh(result.Validation)
+//@   ensures* fresh.meta: isNew && old(att.Meta) != nil ==> result.Meta != nil && fresh(result.Meta)
+//@   ensures* same.scalars: isNew ==> result.Description == old(att.Description) && result.finalized == old(att.finalized)
+//@   ensures memo: d.uts == old(d.uts) && d.ats == old(d.ats)
+//@   modifies* mapOf(d.uts), mapOf(d.ats), cell(GeneratedResultTypes), whole(elems(load(GeneratedResultTypes)))
+//@   frameprop C13
